@@ -128,11 +128,19 @@ func (d *DFPNSolver) Prove(g *tak.Position) (ProofResult, DFPNStats) {
 
 	d.stack = nil
 	start := time.Now()
-	entry, work := d.mid(g, proofNumbers{phi: INFINITY / 2, delta: INFINITY / 2}, entry{
+	entry := entry{
 		hash:   g.Hash(),
 		work:   0,
 		bounds: proofNumbers{phi: 1, delta: 1},
-	})
+	}
+	var work uint64
+	if over, result := g.GameOver(); over {
+		// mid() classifies finished games when it generates children,
+		// never for the position it is called on.
+		entry.bounds = d.terminalBounds(g, result)
+	} else {
+		entry, work = d.mid(g, proofNumbers{phi: INFINITY / 2, delta: INFINITY / 2}, entry)
+	}
 	d.stats.Work = work
 	duration := time.Since(start)
 	// The numbers are relative to the side to move at each node: phi == 0
